@@ -290,6 +290,126 @@ def r_guard_condition(rep, f, fn, body, main, m):
         rep.ok("R-GUARD-UNDERFLOW", key, "%d underflow test(s) compare a positive multiple of |h| with a non-negative threshold" % good)
 
 
+def r_unwrap_guard(rep, f):
+    """no `unwrap()` on the output path can panic for a valid run: in the default output handler, the continuous-output
+    container and the Solution accessors every `Option::unwrap` is dominated by the fact that makes it `Some`:
+    * `v.last()/first().unwrap()`  - `v.is_empty()` is known false (early return, or the left operand of `||`);
+    * `<Option parameter>.unwrap()` (the step interpolant) - `is_some()` is known true, or the callback is known not to be
+      the initial one (a comparison of xold with x is known to separate them): the solvers hand out an interpolant with
+      every accepted step when run by solve_ivp (R-SOLOUT-INIT / R-OBS-FIELDS);
+    * comparator results (`partial_cmp(..).unwrap()`) and closures over already range-checked values are listed, not decided."""
+    import handler as H
+    from symx import SymExec, Hooks
+    scopes = []
+    hc = H.HandlerCtx(f)
+    if hc.body is not None:
+        scopes.append((hc.body["def"], hc.sx, hc.body))
+    for d, b in f.bodies.items():
+        if d.startswith(("solve::cont::ContinuousOutput::", "solve::solution::Solution::")) and b.get("dk") in ("Fn", "AssocFn"):
+            sx = SymExec(f, d, Hooks())
+            sx.bind_params()
+            try:
+                sx.eval(b["body"])
+            except Exception:
+                continue
+            scopes.append((d, sx, b))
+    def prev_state_place(pl, sx_, b_):
+        """`place:<self>.<field>` of a Vec field that the function only ever fills from its state parameter `y`
+        (the saved previous state): non-empty <=> at least one callback has completed"""
+        a_ = pl.single_atom() if isinstance(pl, Poly) else None
+        if not a_ or not a_.startswith("place:") or "." not in a_:
+            return False
+        fld = a_.rsplit(".", 1)[1]
+        ps_ = [p_ for p_ in b_.get("params", []) if p_.get("k") == "PBind"]
+        state_ids = {p_["id"] for p_ in ps_ if "[f64]" in (p_.get("ty") or "")}
+        writes = tast.find(b_["body"], lambda z: (z.get("k") == "Assign" and z["l"].get("k") == "Field" and z["l"].get("name") == fld)
+                           or (z.get("k") == "MethodCall" and z.get("name") in ("copy_from_slice", "clone_from_slice", "extend_from_slice", "clone_from", "push")
+                               and z["recv"].get("k") == "Field" and z["recv"].get("name") == fld))
+        if not writes:
+            return False
+        for w in writes:
+            src = w["r"] if w.get("k") == "Assign" else (w["args"][0] if w.get("args") else {})
+            if not tast.contains(src, lambda q: q.get("k") == "Path" and q.get("id") in state_ids):
+                return False
+        return True
+
+    n_dec = 0
+    listed = []
+    for d, sx, b in scopes:
+        short = d.split("::")[-1] if "DefaultSolOut" not in d else "DefaultSolOut::solout"
+        opt_params = {p_["name"] for p_ in b.get("params", []) if p_.get("k") == "PBind" and "Option<" in (p_.get("ty") or "")}
+        float_params = [p_["name"] for p_ in b.get("params", []) if p_.get("k") == "PBind" and (p_.get("ty") or "").lstrip("&mut ").strip() in ("f64",)]
+        k = 0
+        for ev in sx.trace:
+            if ev["kind"] != "unwrap":
+                continue
+            k += 1
+            rv = ev["recv"]
+            a = rv.single_atom() if isinstance(rv, Poly) else None
+            dd = DEFS.get(a) if a else None
+            key = "R-UNWRAP-GUARD:%s:%d" % (short, k)
+            fs = ev.get("facts") or frozenset()
+
+            def fact_atoms():
+                todo = list(fs)
+                while todo:
+                    cond, truth = todo.pop()
+                    ca = cond.single_atom() if isinstance(cond, Poly) else None
+                    cd = DEFS.get(ca) if ca else None
+                    if not cd:
+                        continue
+                    if (cd[0] == "and" and truth is True) or (cd[0] == "or" and truth is False):
+                        todo += [(x, truth) for x in cd[1] if isinstance(x, Poly)]
+                    elif cd[0] == "not":
+                        todo += [(x, not truth) for x in cd[1] if isinstance(x, Poly)]
+                    else:
+                        yield ca, cd, truth
+            if dd and dd[0] in ("last", "first"):
+                place = dd[1][0]
+                ok = any(cd[0] == "is_empty" and cd[1][0] == place and truth is False for ca, cd, truth in fact_atoms())
+                n_dec += 1
+                if ok:
+                    rep.ok("R-UNWRAP-GUARD", key, "%s().unwrap() under a known non-empty %s" % (dd[0], str(place)[-30:]))
+                else:
+                    rep.violation("R-UNWRAP-GUARD", key, "`%s` can panic: nothing on this path establishes that the vector is non-empty (no `is_empty()` test dominates it)" % tast.render(ev["node"])[:80], ev["node"].get("sp"))
+                continue
+            if a in opt_params or (a or "").split("~")[0] in opt_params:
+                ok = False
+                for ca, cd, truth in fact_atoms():
+                    if cd[0] == "is_some" and truth is True and isinstance(cd[1][0], Poly) and cd[1][0] == rv:
+                        ok = True
+                    if cd[0] == "is_empty" and truth is False and prev_state_place(cd[1][0], sx, b):
+                        ok = True    # the saved previous state exists: a callback has already happened, this is a step callback
+                    if cd[0] in ("le", "lt", "ge", "gt", "eq", "ne") and len(float_params) >= 2:
+                        txt = repr(cd[1])
+                        if float_params[0] in txt and float_params[1] in txt:
+                            # a comparison between xold and x that failed / held: the two are known to differ on this path
+                            if (cd[0] in ("le", "lt", "eq") and truth is False) or (cd[0] in ("gt", "ge", "ne") and truth is True):
+                                ok = True
+                n_dec += 1
+                if ok:
+                    rep.ok("R-UNWRAP-GUARD", key, "%s.unwrap() where it is known to be Some (is_some / not the initial callback)" % a)
+                else:
+                    rep.violation("R-UNWRAP-GUARD", key, "`%s` can panic: on this path nothing separates the initial callback (no interpolant) from a step callback" % tast.render(ev["node"])[:80], ev["node"].get("sp"))
+                continue
+            listed.append("%s: %s" % (short, tast.render(ev["node"])[:60]))
+    rep.extra["unwrap_sites_not_decided"] = listed
+    # coverage control instead of a floor (a refactoring that replaces unwraps by `if let` legitimately lowers the count):
+    # every syntactic unwrap site in the analysed functions must have been reached by the interpreter
+    missing = []
+    for d, sx, b in scopes:
+        seen_nodes = {id(ev.get("inner_node", ev["node"])) for ev in sx.trace if ev["kind"] == "unwrap"} | {id(ev["node"]) for ev in sx.trace if ev["kind"] == "unwrap"}
+        for n_ in tast.find(b["body"], lambda z: z.get("k") == "MethodCall" and z.get("name") in ("unwrap", "expect")
+                            and (z["recv"].get("ty") or "").startswith(("std::option::Option", "std::result::Result", "&std::option::Option"))):
+            inside_closure = any(True for c_, ps in tast.find_with_parents(b["body"], lambda z: z is n_) for p_ in ps if p_.get("k") == "Closure")
+            if id(n_) not in seen_nodes and not inside_closure:
+                missing.append("%s at %s" % (tast.render(n_)[:50], n_.get("sp")))
+    if missing:
+        rep.inconc("R-UNWRAP-GUARD", "R-UNWRAP-GUARD:coverage", "unwrap site(s) not reached by the interpreter: %s" % missing[:3])
+    else:
+        rep.ok("R-UNWRAP-GUARD", "R-UNWRAP-GUARD:coverage", "all syntactic unwrap sites of %d functions were reached (%d decided, %d listed)" % (len(scopes), n_dec, len(listed)), nontrivial=False)
+
+
 def r_guards(rep, f, include_rk4=False):
     for mod, ty in (SOLVERS if include_rk4 else CONTROLLED):
         fn = solve_fn(mod, ty)
@@ -356,6 +476,8 @@ def run(rep, tier):
     f = facts.load("default")
     rep.rule("R-NAN-REJECT", "NaN-taint with Rust's float semantics: on every accepted path, each stage value the new state depends on forces (through NaN-propagating operations only; "
                              "max/min launder, false edges prove nothing) an operand of a comparison that is known to hold there, so a NaN evaluation cannot be accepted")
+    rep.rule("R-UNWRAP-GUARD", "every Option::unwrap on a vector end (last/first) or on the step-interpolant parameter in the output handler, ContinuousOutput and Solution is dominated by the fact that makes it Some (non-empty / is_some / not the initial callback)")
+    r_unwrap_guard(rep, f)
     rep.rule("R-GUARD-UNDERFLOW", "every cycle of an error-controlled main loop passes a step-size underflow exit (StepSizeTooSmall) or bumps a bounded retry counter")
     rep.rule("R-BUDGET", "every cycle increments Steps::total or a bounded retry counter; the loop exits with NeedLargerNMax when total reaches max_steps")
     rep.rule("R-REJECT-SHRINK", "on every rejecting path the next step is at most c*|h| with c < 1, for err in (1, inf] and for err = NaN, with configuration fields in their validated ranges / builder defaults")
